@@ -943,9 +943,19 @@ func ruleREF5(p *Program) *RuleResult {
 // depend on the parsed string only, and results handed to one caller must not
 // be shared with (and later modified through) another.
 func ruleREF6(p *Program) *RuleResult {
-	r := newResult("REF6")
-	prefixes := []string{"internal/element/reference/", "internal/element/canonical/", "internal/resource/identity.go", "internal/resource/canonical_identity.go"}
-	for _, fn := range p.RepoFuncs() {
+	return purityInventory(p, "REF6", "reference|pure", "reference/identity/canonical", 40,
+		[]string{"internal/element/reference/", "internal/element/canonical/", "internal/resource/identity.go", "internal/resource/canonical_identity.go"})
+}
+
+// purityInventory: the functions declared under the given path prefixes use
+// package-level state only by loading immutable values.
+func purityInventory(p *Program, rule, okKey, what string, minFuncs int, prefixes []string) *RuleResult {
+	return purityInventoryOf(p, rule, okKey, what, minFuncs, prefixes, p.RepoFuncs())
+}
+
+func purityInventoryOf(p *Program, rule, okKey, what string, minFuncs int, prefixes []string, fns []*ssa.Function) *RuleResult {
+	r := newResult(rule)
+	for _, fn := range fns {
 		if len(fn.Blocks) == 0 || strings.HasPrefix(fn.Name(), "init") {
 			continue
 		}
@@ -971,11 +981,38 @@ func ruleREF6(p *Program) *RuleResult {
 					elem := g.Type().(*types.Pointer).Elem()
 					// reads of immutable globals: loads of error sentinels, regexps, strings and other scalars
 					if ld, isLoad := ins.(*ssa.UnOp); isLoad && ld.X == ssa.Value(g) {
-						if isErrorType(elem) || typeShort(elem) == "*regexp.Regexp" {
-							continue
+						if isErrorType(elem) || typeShort(elem) == "*regexp.Regexp" || typeShort(elem) == "time.Time" {
+							continue // immutable values (a time.Time is copied by the load)
 						}
 						if _, basic := elem.Underlying().(*types.Basic); basic {
 							continue
+						}
+						// a table (slice) that is only indexed, ranged over or passed to a reader here
+						if _, isSlice := elem.Underlying().(*types.Slice); isSlice && ld.Referrers() != nil {
+							ro := true
+							for _, ref := range *ld.Referrers() {
+								switch y := ref.(type) {
+								case *ssa.Range, *ssa.DebugRef, *ssa.Index:
+								case *ssa.IndexAddr:
+									for _, r3 := range *y.Referrers() {
+										if st, ok := r3.(*ssa.Store); ok && st.Addr == ssa.Value(y) {
+											ro = false
+										}
+									}
+								case *ssa.Call:
+									if bi, ok := y.Common().Value.(*ssa.Builtin); ok && bi.Name() == "len" {
+										continue
+									}
+									if sc := y.Common().StaticCallee(); sc == nil || !(strings.HasSuffix(fnPkgPath(sc), "/internal/slices") || fnPkgPath(sc) == "slices") {
+										ro = false
+									}
+								default:
+									ro = false
+								}
+							}
+							if ro {
+								continue
+							}
 						}
 						// a registry map that is only looked up / ranged over here
 						if _, isMap := elem.Underlying().(*types.Map); isMap && ld.Referrers() != nil {
@@ -1007,10 +1044,20 @@ func ruleREF6(p *Program) *RuleResult {
 		}
 	}
 	if len(r.Obs) == 0 {
-		r.ok("reference|pure", fmt.Sprintf("the %d reference/identity/canonical functions use package-level state only by loading error sentinels, regexps and scalars", r.Analysed["functions"]), "internal/element/reference", "operand inventory", true)
+		r.ok(okKey, fmt.Sprintf("the %d %s functions use package-level state only by loading error sentinels, regexps, scalars and read-only tables", r.Analysed["functions"], what), prefixes[0], "operand inventory", true)
 	}
-	r.floor("functions", 40)
+	r.floor("functions", minFuncs)
 	return r
+}
+
+// NAV8 / TYP7: navigation and the type hierarchy are pure functions of their
+// arguments (no process-wide cache whose key could conflate two schema items).
+func ruleNAV8(p *Program) *RuleResult {
+	return purityInventory(p, "NAV8", "navigation|pure", "navigation (expr, protofields)", 40, []string{"fhirpath/internal/expr/", "internal/protofields/fields.go", "internal/protofields/strcase.go"})
+}
+
+func ruleTYP7(p *Program) *RuleResult {
+	return purityInventory(p, "TYP7", "reflection|pure", "type-hierarchy (reflection)", 10, []string{"fhirpath/internal/reflection/"})
 }
 
 // ---------- REF7: identity comparison is component-wise equality ----------
